@@ -169,8 +169,8 @@ class MeshTet1(MeshSimplex, Mesh3D):
         """Make (0, 1) the longest edge in t for marked."""
 
         # add noise so that there are no edges with the same length
-        np.random.seed(1337)
-        p = p.copy() + 1e-10 * np.random.random(p.shape)
+        rng = np.random.RandomState(1337)
+        p = p.copy() + 1e-10 * rng.random_sample(p.shape)
 
         l01 = np.sqrt(np.sum((p[:, t[0, marked]] - p[:, t[1, marked]]) ** 2,
                              axis=0))
